@@ -484,7 +484,7 @@ def run_case(chk, stream, case):
         d = first_diff(s, s2)
     if d:
         chk.hit("roundtrip:differs")
-        fails.append(oracle("C09:%s:%s" % (name, d[0]), "%s: stanza -> entity -> stanza: %s" % (what, d[1])))
+        fails.append(oracle("C09:%s:%s" % (name.split("#")[0], d[0]), "%s: stanza -> entity -> stanza: %s" % (what, d[1])))
     else:
         chk.hit("roundtrip:same")
     # ---- the produced stanza and the binary codec: for stanzas the client sends
